@@ -808,6 +808,16 @@ func singlePredFrom(s, p *ssa.BasicBlock) bool {
 
 // allFacts flattens condFacts through && / || short-circuit structure is already explicit in SSA blocks.
 // It additionally normalises UnOp(!) wrappers.
+// assertsEq / assertsNeq: a fact about an (in)equality read independently of how the test was spelled — `x == y`
+// holding and `x != y` not holding are the same fact (an if/else and a switch with swapped branches must not differ).
+func assertsEq(bo *ssa.BinOp, pol bool) bool {
+	return (bo.Op == token.EQL && pol) || (bo.Op == token.NEQ && !pol)
+}
+
+func assertsNeq(bo *ssa.BinOp, pol bool) bool {
+	return (bo.Op == token.NEQ && pol) || (bo.Op == token.EQL && !pol)
+}
+
 func normFacts(fs []condFact) []condFact {
 	var out []condFact
 	for _, f := range fs {
